@@ -61,11 +61,10 @@ def normCat : List Doc → List Doc × Bool → List Doc × Bool
   | d :: ds, acc => normCat ds (catStep (normalize d) acc)
 end
 
-/-! ### `size (normalize d) ≤ 2 * size d`
+/-! ### `size (normalize d) ≤ rsize d`
 
-`normalize` may add one `AlwaysBreak` wrapper around a `fill` (and only there does it grow), so it is not
-size-non-increasing; it at most doubles the size, which is what the machine's measure is built for
-(`size (align d) = 3 + 2 * size d`, `size (choice l b f) = 1 + 2 * size b + size f`). -/
+`normalize` may add one `AlwaysBreak` wrapper around a `fill` (and only there does it grow); `rsize` pre-pays that
+wrapper, and measures the broken alternative of a choice as it will be measured once the copy is lazily normalising. -/
 
 def flagBit (b : Bool) : Nat := if b then 1 else 0
 
@@ -85,37 +84,37 @@ theorem sizesF_fillKeep (ds : List Doc) : sizesF (fillKeep ds) ≤ sizesF ds := 
 theorem flagBit_le (b : Bool) : flagBit b ≤ 1 := by cases b <;> simp [flagBit]
 
 mutual
-theorem size_normalize : (d : Doc) → size (normalize d) ≤ 2 * size d
-  | .nil => by simp [normalize, size]
-  | .text s => by simp only [normalize]; split <;> simp [size]
-  | .hardline => by simp [normalize, size]
-  | .choice l b f => by simp only [normalize, size]; omega
-  | .align d => by simp only [normalize, size]; omega
-  | .pstr sp => by simp only [normalize, size]; omega
-  | .ann a d => by have := size_normalize d; simp only [normalize, size]; omega
+theorem size_normalize : (d : Doc) → size (normalize d) ≤ rsize d
+  | .nil => by simp [normalize, size, rsize]
+  | .text s => by simp only [normalize]; split <;> simp [size, rsize]
+  | .hardline => by simp [normalize, size, rsize]
+  | .choice l b f => by simp [normalize, size, rsize]
+  | .align d => by simp [normalize, size, rsize]
+  | .pstr sp => by simp [normalize, size, rsize]
+  | .ann a d => by have := size_normalize d; simp only [normalize, size, rsize]; omega
   | .ab d => by
       have := size_normalize d
-      simp only [normalize]; split <;> simp only [size] <;> omega
+      simp only [normalize]; split <;> simp only [size, rsize] <;> omega
   | .nest j d => by
       have := size_normalize d
       simp only [normalize]; split
       · rename_i h
         generalize normalize d = n at *
         cases n <;> simp [isAb] at h
-        simp only [size, unAb] at *; omega
-      · simp only [size]; omega
+        simp only [size, rsize, unAb] at *; omega
+      · simp only [size, rsize]; omega
   | .group d => by
       have := size_normalize d
       simp only [normalize]; split
-      · simp only [size]; omega
-      · split <;> simp only [size] <;> omega
+      · simp only [rsize]; omega
+      · split <;> simp only [size, rsize] <;> omega
   | .fill ds => by
       simp only [normalize]
       split
-      · simp only [size]; omega
+      · simp only [size, rsize]; omega
       · have h1 := sizesF_fillKeep ds
         have h2 := flagBit_le (anyAb ds)
-        rw [size_wrapAb]; simp only [size]
+        rw [size_wrapAb]; simp only [size, rsize]
         omega
   | .cat ds => by
       have h := size_normCat ds ([], false)
@@ -126,17 +125,17 @@ theorem size_normalize : (d : Doc) → size (normalize d) ≤ 2 * size d
       have h0 : flagBit false = 0 := rfl
       simp only [sizes, h0, Nat.zero_add, Nat.add_zero] at h
       match xs with
-      | [] => simp only [size]; omega
-      | [x] => simp only [size_wrapAb, size, sizes] at *; omega
-      | x :: y :: zs => simp only [size_wrapAb, size, sizes] at *; omega
+      | [] => simp only [size, rsize]; omega
+      | [x] => simp only [size_wrapAb, size, rsize, sizes] at *; omega
+      | x :: y :: zs => simp only [size_wrapAb, size, rsize, sizes] at *; omega
 theorem size_normCat : (ds : List Doc) → (acc : List Doc × Bool) →
-    sizes (normCat ds acc).1 + flagBit (normCat ds acc).2 ≤ sizes acc.1 + flagBit acc.2 + 2 * sizes ds
-  | [], acc => by simp [normCat, sizes]
+    sizes (normCat ds acc).1 + flagBit (normCat ds acc).2 ≤ sizes acc.1 + flagBit acc.2 + rsizes ds
+  | [], acc => by simp [normCat, rsizes]
   | d :: ds, acc => by
       have h1 := size_normalize d
       have h2 := catStep_size (normalize d) acc
       have h3 := size_normCat ds (catStep (normalize d) acc)
-      simp only [normCat, sizes]; omega
+      simp only [normCat, rsizes]; omega
 end
 
 end Doc
